@@ -143,14 +143,6 @@ Proof.
   apply strip_pad; [reflexivity|reflexivity|exact H].
 Qed.
 
-Lemma strip_blanks p : blanks p = true -> strip p = [].
-Proof.
-  intros H. change p with ([] ++ p) at 1. rewrite <- (app_nil_r p).
-  change (([] ++ p) ++ []) with ([] ++ p ++ []). rewrite <- (app_nil_l (p ++ [])).
-  change ([] ++ p ++ []) with (p ++ [] ++ []).
-  apply (strip_pad p [] []); [exact H|reflexivity|reflexivity].
-Qed.
-
 (* ---------- single steps of the matcher ---------------------------------------------- *)
 Lemma opt_some (X Y : option st) r :
   X = Some r -> match X with Some r' => Some r' | None => Y end = Some r.
